@@ -99,6 +99,8 @@ def _render(fmt, doc):
             return ooxml.docx(doc, imgs, {"block_sdt": True})
         if fmt == "pptx+nooff":
             return ooxml.pptx(doc, imgs, {"no_offsets": True})
+        if fmt in ("docx+pagebr", "docx+colbr"):
+            return ooxml.docx(doc, imgs, {"br_type": "page" if fmt == "docx+pagebr" else "column"})
         return getattr(ooxml, base)(doc, imgs)
     if base in ("odt", "odp", "odg", "odf", "ods"):
         from verif.gen import odf
@@ -230,7 +232,7 @@ def _clauses(fmt):
 
 
 SHEET_FORMATS = ("xlsx", "xlsx+inline", "ods", "xls", "csv")
-ADM_FORMATS = ("docx", "docx+bsdt", "pptx", "pptx+nooff", "odt", "odp", "odg", "odf", "html", "mhtml", "mhtml+b64", "epub", "rtf", "pdf", "txt", "md", "json",
+ADM_FORMATS = ("docx", "docx+bsdt", "docx+pagebr", "docx+colbr", "pptx", "pptx+nooff", "odt", "odp", "odg", "odf", "html", "mhtml", "mhtml+b64", "epub", "rtf", "pdf", "txt", "md", "json",
                "csv", "eml", "eml+html", "mbox", "ppt", "ppt+textbox")
 THOROUGH_ONLY = ("mhtml+b64", "xlsx+inline")
 FORMATS = ADM_FORMATS + tuple(f for f in SHEET_FORMATS if f != "csv") + ("csv+sheet",)
@@ -629,6 +631,12 @@ def _has_block_sdt(doc):
     return any(b[0] == "p" and len(b[1]) == 1 and b[1][0][0] == "sdt" for u in doc[2] for b in u[1])
 
 
+def _has_inline(x, kind):
+    if isinstance(x, list):
+        return (len(x) == 1 and x[0] == kind) or any(_has_inline(y, kind) for y in x)
+    return False
+
+
 def skeletons(fmt, tier, k=0, n=1):
     """The skeletons of partition k of n of the format's space, without duplicates. ('adm'|'sheet', skeleton)"""
     if fmt in ("xlsx", "xlsx+inline", "ods", "xls", "csv+sheet"):
@@ -665,6 +673,8 @@ def cases_for(fmt, tier, seed, k=0, n=1):
         doc = build_sheets(sk, seed) if kind == "sheet" else build_doc(sk, seed)
         if fmt == "docx+bsdt" and not _has_block_sdt(doc):
             continue          # the variant differs from docx only where a top-level paragraph is one content control
+        if fmt in ("docx+pagebr", "docx+colbr") and not _has_inline(doc, "br"):
+            continue          # the variant differs from docx only where a run holds a break (w:br w:type="page" / "column")
         if fmt == "pptx+nooff" and not all(len(u[1]) >= 2 and all(b[0] == "p" for b in u[1]) for u in doc[2]):
             continue          # shapes without a position: only text boxes share one default sort key, so source order must survive
         if fmt == "ppt+textbox" and not any(b[0] == "p" for u in doc[2] for b in u[1]):
